@@ -493,3 +493,43 @@ unit({
         _vf('WriteVolume', rangefor={'path': 'str'}),
     ],
 })
+
+# --------------------------------------------------------------------------- U-CLM (ClmFile / WaveFile)
+CF = 'src/Archive/ClmFile.cpp'; CH = 'src/Archive/ClmFile.h'; WFH = 'src/Archive/WaveFile.h'
+CLM_TM = {'Tag': 'Tag', 'WaveFormatEx': 'WaveFormatEx', 'RiffHeader': 'RiffHeader', 'FormatChunk': 'FormatChunk', 'ChunkHeader': 'ChunkHeader', 'WaveHeader': 'WaveHeader',
+          'ClmHeader': 'ClmHeader', 'ClmFile::ClmHeader': 'ClmHeader', 'IndexEntry': 'ClmIndexEntry', 'std::array<char,32>': 'arr_char_32', 'std::array<char,6>': 'arr_char_6',
+          'std::array<char,8>': 'arr_char_8', 'std::string': 'str', 'std::vector<std::string>': 'vec_str', 'std::vector<IndexEntry>': 'vec_ClmIndexEntry',
+          'std::vector<WaveFormatEx>': 'vec_WaveFormatEx', 'Stream::BidirectionalReader': 'Rd'}
+def _cf(name, **kw):
+    d = {'file': CF, 'qual': 'ClmFile::' + name, 'cls': 'ClmFile', 'static': True, 'cname': 'ClmFile_' + name, 'members': {}}
+    d.update(kw); return d
+unit({
+    'name': 'clm',
+    'includes': ['kr.h'],
+    'typemap': CLM_TM,
+    'structs': [STR_VIEW, TAG_T, VIEW('vec_str', 'str'), ARR('arr_char_32', 'char', 32), ARR('arr_char_6', 'char', 6), ARR('arr_char_8', 'char', 8),
+                (WFH, 'WaveFormatEx'), (WFH, 'RiffHeader'), (WFH, 'FormatChunk'), (WFH, 'ChunkHeader'), (WFH, 'WaveHeader'),
+                (CH, 'ClmHeader'), (CH, 'IndexEntry', {'cname': 'ClmIndexEntry'}), VIEW('vec_ClmIndexEntry', 'ClmIndexEntry'), VIEW('vec_WaveFormatEx', 'WaveFormatEx')],
+    'globals': [{'file': WFH, 'qual': 'tag' + t_, 'ctype': 'Tag', 'cname': 'tag' + t_} for t_ in ('RIFF', 'WAVE', 'FMT_', 'DATA')] + [
+        {'file': CF, 'qual': 'standardFileVersion', 'ctype': 'arr_char_32', 'cname': 'standardFileVersion'},
+        {'file': CF, 'qual': 'standardUnknown', 'ctype': 'arr_char_6', 'cname': 'standardUnknown'}],
+    'scoped': {'ClmHeader': 'ClmHeader', 'IndexEntry': 'ClmIndexEntry'},
+    'views': [(r'\(\*indexEntries\)\.data\[[^\]]*\]\.filename', 'arr'), (r'\(\*names\)\.data\[[^\]]*\]', 'str')],
+    'calls': {
+        'Length': N('Rd_Length'), 'Seek': T('Rd_Seek'),
+        'Read': {1: T('Rd_Read', args=['obj'])},
+        'CheckFileVersion': N('ClmHeader_CheckFileVersion'), 'CheckUnknown': N('ClmHeader_CheckUnknown'),
+        'memcmp': N('op2_memcmp', recv='none'), 'strncpy': N('op2_strncpy', recv='none'),
+    },
+    'functions': [
+        {'file': 'src/Archive/WaveFile.cpp', 'qual': 'WaveHeader::Create', 'cls': 'WaveHeader', 'static': True, 'cname': 'WaveHeader_Create', 'members': {}},
+        {'file': CF, 'qual': 'ClmFile::ClmHeader::MakeHeader', 'cls': 'ClmHeader', 'static': True, 'cname': 'ClmHeader_MakeHeader', 'ret_cxx': 'ClmHeader'},
+        {'file': CF, 'qual': 'ClmFile::ClmHeader::CheckFileVersion', 'cls': 'ClmHeader', 'cname': 'ClmHeader_CheckFileVersion'},
+        {'file': CF, 'qual': 'ClmFile::ClmHeader::CheckUnknown', 'cls': 'ClmHeader', 'cname': 'ClmHeader_CheckUnknown'},
+        {'file': CF, 'qual': 'ClmFile::ClmHeader::VerifyFileVersion', 'cls': 'ClmHeader', 'cname': 'ClmHeader_VerifyFileVersion'},
+        {'file': CF, 'qual': 'ClmFile::ClmHeader::VerifyUnknown', 'cls': 'ClmHeader', 'cname': 'ClmHeader_VerifyUnknown'},
+        _cf('FindChunk'),
+        _cf('CompareWaveFormats'),
+        _cf('PrepareIndex'),
+    ],
+})
